@@ -96,6 +96,14 @@ var mutantCatalogue = map[string][]mutant{
 		{Name: "rollback forgets the replaced writes", File: "risc/app.go", Old: "\t\tfor _, overwritten := range ctx.transactionOverwritten[register] {\n\t\t\tif overwritten.sequenceID < sequenceID && (tu.sequenceID >= sequenceID || overwritten.sequenceID > tu.sequenceID) {\n\t\t\t\ttu = overwritten\n\t\t\t}\n\t\t}\n", New: ""},
 	},
 	"C07": {
+		{Name: "final drain never steps the snoops", File: "proc/mvp7-0/cpu.go", Old: "\t\t\tcc.snoop.Cycle(struct{}{})\n\t\t}\n\t\tfor i, eu", New: "\t\t}\n\t\tfor i, eu"},
+		{Name: "final drain never connects the write bus", File: "proc/mvp7-1/cpu.go", Old: "\t\t// What the execute units completed still has to be written\n\t\tm.writeBus.Connect(cycle)\n", New: ""},
+		{Name: "execute unit stays suspended across a flush", File: "proc/mvp7-0/eu.go", Old: "func (u *executeUnit) flush() {\n\tu.Reset()\n", New: "func (u *executeUnit) flush() {\n"},
+		{Name: "resolved jump not reported", File: "proc/mvp7-0/eu.go", Old: "\t\t\tu.bu.notifyUnconditionalJumpAddressResolved(u.runner.Pc, execution.NextPc)\n", New: ""},
+		{Name: "evict snoop never completes its command", File: "proc/mvp7-1/cc.go", Old: "\t\t\t\t_, _ = cc.l1d.EvictCacheLine(req.alignedAddr)\n\t\t\t\tinfo.done()\n", New: "\t\t\t\t_, _ = cc.l1d.EvictCacheLine(req.alignedAddr)\n"},
+		{Name: "idleness ignores the side jobs", File: "common/coroutine/coroutine.go", Old: "return c.isStart && len(c.list) == 0", New: "return c.isStart"},
+		{Name: "Reset leaves the coroutine suspended", File: "common/coroutine/coroutine.go", Old: "func (c *Coroutine[A, B]) Reset() {\n\tc.current = c.start\n\tc.isStart = true\n", New: "func (c *Coroutine[A, B]) Reset() {\n\tc.current = c.start\n"},
+		{Name: "side jobs run while suspended", File: "common/coroutine/coroutine.go", Old: "\tif !c.isStart {\n", New: "\tif !c.isStart && len(c.list) == 0 {\n"},
 		{Name: "decode bus never connected", File: "proc/mvp6-1/cpu.go", Old: "\t\tm.decodeBus.Connect(cycle)\n", New: ""},
 		{Name: "not-taken branch leaves the flag raised", File: "proc/mvp7-1/bu.go", Old: "func (u *btbBranchUnit) notifyConditionalBranchNotTaken() {\n\tu.cu.notifyConditionalBranch()\n", New: "func (u *btbBranchUnit) notifyConditionalBranchNotTaken() {\n"},
 		{Name: "L3 lock kept after the access", File: "proc/mvp8-0/cc.go", Old: "\t\t\t\t\t\t\t\t\tcc.l3Lock = nil\n\t\t\t\t\t\t\t\t\tmu.Unlock()\n", New: "\t\t\t\t\t\t\t\t\tcc.l3Lock = nil\n"},
@@ -114,6 +122,7 @@ var mutantCatalogue = map[string][]mutant{
 		{Name: "nop costs zero cycles", File: "risc/risc.go", Old: "\tcase Nop:\n\t\treturn 1", New: "\tcase Nop:\n\t\treturn 0"},
 	},
 	"C09": {
+		{Name: "undispatched instruction dropped", File: "proc/mvp7-0/cu.go", Old: "\t\t\tu.pendings.Push(runner)\n", New: ""},
 		{Name: "ret drain forgets the write bus", File: "proc/mvp6-3/cpu.go", Old: "for !m.areExecuteUnitsEmpty() || !m.areWriteUnitsEmpty() || !m.writeBus.IsEmpty() {", New: "for !m.areExecuteUnitsEmpty() || !m.areWriteUnitsEmpty() {"},
 		{Name: "ret drain forgets the execute units", File: "proc/mvp6-1/cpu.go", Old: "for !m.areExecuteUnitsEmpty() || !m.areWriteUnitsEmpty() || !m.writeBus.IsEmpty() {", New: "for !m.areWriteUnitsEmpty() || !m.writeBus.IsEmpty() {"},
 		{Name: "ret hold ignores the execute bus", File: "proc/mvp6-2/cu.go", Old: "risc.Ret && (!u.outBus.IsEmpty() || u.pendingConditionalBranch)", New: "risc.Ret && u.pendingConditionalBranch"},
@@ -166,6 +175,8 @@ var mutantCatalogue = map[string][]mutant{
 		{Name: "L3 dirty flag keyed by the L1 alignment", File: "proc/mvp8-0/cc.go", Old: "\tl3Addr := getL3AlignedMemoryAddress([]int32{int32(l1Addr)})\n\tcc.msi.l3WriteNotify(l3Addr)", New: "\tl3Addr := getL1AlignedMemoryAddress([]int32{int32(l1Addr)})\n\tcc.msi.l3WriteNotify(l3Addr)"},
 	},
 	"C06": {
+		{Name: "completed command stays in the table", File: "proc/mvp7-0/msi.go", Old: "\t\t\t\tdelete(m.commands, cmdRequest)\n", New: ""},
+		{Name: "done() without the callback", File: "proc/mvp8-0/msi.go", Old: "\tr.doneFlag = true\n\tr.callback()\n", New: "\tr.doneFlag = true\n"},
 		{Name: "snoop write-back at the L3 line address", File: "proc/mvp8-0/cc.go", Old: "cc.mmu.writeToMemory(req.alignedAddr, memory)", New: "cc.mmu.writeToMemory(getL3AlignedMemoryAddress([]int32{int32(req.alignedAddr)}), memory)"},
 		{Name: "read@I ends Modified", File: "proc/mvp7-0/msi.go", Old: "m.setState(id, addrs, shared)", New: "m.setState(id, addrs, modified)"},
 		{Name: "read@I evicts the Modified holder", File: "proc/mvp7-1/msi.go", Old: "\t\tcase modified:\n\t\t\tpendings = append(pendings, m.sendNewMSICommand(e.id, alignedAddr, writeBack))\n\t\t}\n\t}\n\treturn pendings\n}\n\n// lock is", New: "\t\tcase modified:\n\t\t\tpendings = append(pendings, m.sendNewMSICommand(e.id, alignedAddr, evict))\n\t\t}\n\t}\n\treturn pendings\n}\n\n// lock is"},
@@ -188,6 +199,8 @@ var mutantCatalogue = map[string][]mutant{
 		{Name: "write lock released as read lock", File: "proc/mvp7-0/msi.go", Old: "\t\treturn msiResponse{writeToL1: true}, func() {\n\t\t\tm.getSem(addrs).Unlock()", New: "\t\treturn msiResponse{writeToL1: true}, func() {\n\t\t\tm.getSem(addrs).RUnlock()"},
 	},
 	"C12": {
+		{Name: "delay idles one step more", File: "common/coroutine/coroutine.go", Old: "\t\tif remaining > 0 {\n", New: "\t\tif remaining >= 0 {\n"},
+		{Name: "a step with side jobs also runs the entry", File: "common/coroutine/coroutine.go", Old: "\tif length == 0 {\n\t\treturn c.current(a)\n\t}\n\treturn zero\n", New: "\treturn c.current(a)\n"},
 		{Name: "write-back latency dropped", File: "proc/mvp1/cpu.go", Old: "m.cycle += latency.RegisterAccess", New: "m.cycle += 0"},
 		{Name: "memory read charged on the wrong test", File: "proc/mvp1/cpu.go", Old: "\tif len(addrs) != 0 {", New: "\tif len(addrs) == 4 {"},
 		{Name: "MVP-2 fetch above MemoryAccess", File: "proc/mvp2/cpu.go", Old: "m.cycle += latency.L1Access", New: "m.cycle += latency.MemoryAccess + 1"},
@@ -198,6 +211,8 @@ var mutantCatalogue = map[string][]mutant{
 		{Name: "always flush on a taken branch", File: "proc/mvp5/bu.go", Old: "return bu.expectation != pc", New: "return true"},
 	},
 	"C01": {
+		{Name: "dispatched instruction stays queued", File: "proc/mvp6-3/cu.go", Old: "\t\t\tu.pendings.Remove(elem)\n", New: ""},
+		{Name: "side jobs dropped instead of kept", File: "common/coroutine/coroutine.go", Old: "\t\treturn f(a)\n\t})\n\tif length == 0 {", New: "\t\treturn !f(a)\n\t})\n\tif length == 0 {"},
 		{Name: "epilogue forgets RATFlush", File: "proc/mvp6-3/cpu.go", Old: "\tm.ctx.RATCommit()\n\tm.ctx.RATFlush()\n", New: "\tm.ctx.RATCommit()\n"},
 		{Name: "transaction style without Commit", File: "proc/mvp6-2/cpu.go", Old: "\tm.ctx.Commit()\n", New: ""},
 		{Name: "rename flag without rename writes", File: "proc/mvp6-2/cpu.go", Old: "ctx := risc.NewContext(debug, memoryBytes, false)", New: "ctx := risc.NewContext(debug, memoryBytes, true)"},
